@@ -55,15 +55,30 @@ def build(root, repo=None, only=None):
     def cc(args, out):
         return subprocess.Popen(["clang"] + SAN + ["-I" + c, "-Wno-everything"] + args + ["-o", out],
                                 stdout=subprocess.PIPE, stderr=subprocess.STDOUT)
+    asm = [os.path.join(c, "blake3_%s_x86-64_unix.S" % k) for k in ("sse2", "sse41", "avx2", "avx512")]
     flavours = {
         "portable": (NO_SIMD, []),
-        "asm": ([], [os.path.join(c, "blake3_%s_x86-64_unix.S" % k) for k in ("sse2", "sse41", "avx2", "avx512")]),
+        "asm": ([], asm),
         "intrinsics": ([], "objs"),
+        # -DBLAKE3_USE_TBB: blake3_hasher_update_tbb + the real c/blake3_tbb.cpp against the parallel_invoke stand-in
+        "tbb_portable": (NO_SIMD + ["-DBLAKE3_USE_TBB"], "tbb"),
+        "tbb_asm": (["-DBLAKE3_USE_TBB"], "tbb+asm"),
     }
     for name, (defs, extra) in flavours.items():
         if only and name not in only:
             continue
         exe = os.path.join(root, "cdrv_" + name)
+        if isinstance(extra, str) and extra.startswith("tbb"):
+            o = os.path.join(root, "tbb_%s.o" % name)
+            stub = os.path.join(common.VERIF, "lib", "c_driver", "tbb_stub")
+            p = subprocess.Popen(["clang++"] + SAN + ["-std=c++17", "-fno-exceptions", "-fno-rtti", "-I" + stub, "-I" + c,
+                                                      "-Wno-everything"] + defs + ["-c", os.path.join(c, "blake3_tbb.cpp"), "-o", o],
+                                 stdout=subprocess.PIPE, stderr=subprocess.STDOUT)
+            out = p.communicate()[0].decode("utf-8", "replace")
+            if p.returncode != 0:
+                log.append({"flavour": name, "ok": False, "error": out[-1500:]})
+                continue
+            extra = [o, "-lstdc++", "-lpthread"] + (asm if extra.endswith("asm") else [])
         if extra == "objs":
             objs = []
             ok = True
@@ -174,11 +189,13 @@ def line(s, mask):
         " ".join(str(x) for x in s["splits"]), s["out_len"], s["seek"], s["out_place"], mask)
 
 
-def run_batch(exe, scs, mask, timeout=120):
+def run_batch(exe, scs, mask, timeout=120, tbb_order=None):
     """-> (index of failing scenario or None, failure dict or None, number checked)"""
     inp = "".join(line(s, mask) for s in scs)
     env = dict(os.environ, ASAN_OPTIONS="detect_leaks=0:abort_on_error=0:allocator_may_return_null=1",
                UBSAN_OPTIONS="print_stacktrace=1")
+    if tbb_order is not None:
+        env["VERIF_TBB_ORDER"] = str(tbb_order)
     try:
         p = subprocess.run([exe], input=inp.encode(), stdout=subprocess.PIPE, stderr=subprocess.PIPE, timeout=timeout, env=env)
         rc, out, err = p.returncode, p.stdout.decode("utf-8", "replace"), p.stderr.decode("utf-8", "replace")
@@ -216,11 +233,14 @@ def _scn_json(s, flavour, maskname, mask):
     d["key"] = s["key"].hex()
     d["ctx"] = s["ctx"].hex()
     d.update(kind="c_api", flavour=flavour, feature_level=maskname, mask=mask)
+    if "order" in maskname:
+        d["tbb_order"] = int(maskname.rsplit("order", 1)[1])
     return d
 
 
 def _accept(prop, m):
     # C07 is about memory safety / UB only; C06 about any observable difference
+    # (C08: the -DBLAKE3_USE_TBB flavours, any difference from the oracle = from the serial result)
     return m["class"] in ("memory", "crash") if prop == "C07" else True
 
 
@@ -234,23 +254,30 @@ def find(prop, fo, seed, deadline=None, repo=None):
     root = common.scratch_dir("search_c")
     found = None
     try:
-        order = (fo or {}).get("variants") or ["portable", "asm", "intrinsics"]
+        order = (fo or {}).get("variants") or (["tbb_portable", "tbb_asm", "portable"] if prop == "C08"
+                                               else ["portable", "asm", "intrinsics"])
         exes, blog = build(root, repo)
         log["builds"] = blog
         scs = scenarios(seed, function)
         jobs = []
         for fl in order:
             if exes.get(fl):
+                if fl.startswith("tbb"):
+                    for o in (0, 1, 2):
+                        for mname, mask in ([("none", 0)] if fl == "tbb_portable" else [MASKS[0], MASKS[3]]):
+                            jobs.append((fl, "%s/order%d" % (mname, o), mask))
+                    continue
                 for mname, mask in ([("none", 0)] if fl == "portable" else MASKS):
                     jobs.append((fl, mname, mask))
 
         def one(job):
             fl, mname, mask = job
             exe = exes[fl]
+            tbb_order = mname.rsplit("order", 1)[1] if "order" in mname else None
             pos, n_done, hit = 0, 0, None
             while pos < len(scs) and time.time() < deadline - 3:
                 batch = scs[pos:pos + 150]
-                i, m, done = run_batch(exe, batch, mask, timeout=max(10, int(deadline - time.time())))
+                i, m, done = run_batch(exe, batch, mask, timeout=max(10, int(deadline - time.time())), tbb_order=tbb_order)
                 n_done += done
                 if m is not None and _accept(prop, m):
                     hit = (batch[i], m)
@@ -287,7 +314,7 @@ def rerun(fi, repo=None):
         exe = exes.get(sc["flavour"])
         if not exe:
             return {"reproduced": False, "error": "build failed: " + str(blog)[-1500:]}
-        i, m, _ = run_batch(exe, [sc], sc["mask"])
+        i, m, _ = run_batch(exe, [sc], sc["mask"], tbb_order=sc.get("tbb_order"))
         if m is None:
             return {"reproduced": False, "observed": "agrees with the oracle, no sanitizer report", "scenario": fi["scenario"]}
         return {"reproduced": True, "field": m["field"], "observed": m["observed"], "expected": m["expected"],
